@@ -98,6 +98,8 @@ def h_graph(t: GRAPH_SEL) -> bool:
 
 KOPS = param("C16_KOPS", quick=5, thorough=6)
 NEXC = param("C16_NEXC", quick=1, thorough=2)
+MINEXC = param("C16_MINEXC", quick=0, thorough=0)   # entries that must be present
+NOEG = param("C16_NOEG", quick=0, thorough=0)       # 1: no range ends inside a cache gap
 GAPS = param("C16_GAPS", quick=3, thorough=3)   # 3: all inline-cache patterns; 1: only "every other instruction"
 # per op: kind, target index, (unused, 0); then the inline-cache pattern (0 none, 1 every
 # instruction, 2 every other one); then per exception entry: present, start, end,
@@ -127,10 +129,10 @@ def code_ok(t):
   for e in range(NEXC):
     pres, st, en, eg, tg, lasti = t[base + EW * e:base + EW * e + EW]
     conds += [
-        inrange(pres, 0, 2),
+        inrange(pres, 1 if e < MINEXC else 0, 2),
         any([all([pres == 0, st == 0, en == 0, eg == 0, tg == 0, lasti == 0]),
              all([pres == 1, 0 <= st, st <= en, en < tg, tg < KOPS,
-                  inrange(eg, 0, 2), inrange(lasti, 0, 2),
+                  inrange(eg, 0, 1 if NOEG else 2), inrange(lasti, 0, 2),
                   # compiler guarantee: the handler follows the protected range, and a
                   # range that gets a block ends strictly before the last instruction
                   en < KOPS - 1])]),
